@@ -183,6 +183,25 @@ def run(ck):
             ck.ob("DEFUSE", f.path, "bounds-and-commitment#%d" % n, ("arg", 5) in oa[4] and ("arg", 6) in oa[5] and ("arg", 7) in oa[6] and ("arg", 8) in oa[7],
                   "verify_in_range receives (lower, upper, commitment, proof) in that order", f.loc(bi))
 
+    # the bounds of a range statement reach the range proof as given: in the statement-level wrappers every argument of
+    # prove_in_range / verify_in_range derives from exactly ONE parameter, and no two arguments from the same one (a verifier that
+    # orders or otherwise combines `lower` and `upper` accepts, for the empty range [upper, lower), a proof made for [lower, upper))
+    npass = 0
+    for pth in (CB + "::id::id_verifier::verify_attribute_range", CB + "::id::id_prover::prove_attribute_in_range"):
+        g = getfn(ck, "rs", CB, pth)
+        if not g:
+            continue
+        for k, (bi, t) in enumerate(g.calls(r"range_proof::(verify_in_range|prove_in_range)$")):
+            sets = [frozenset(a for a in g.origins(x, deep=True) if a[0] == "arg") for x in t["args"]]
+            mixed = [i for i, s_ in enumerate(sets) if len(s_) > 1]
+            ne = [s_ for s_ in sets if s_]
+            dup = len(ne) != len(set(ne))
+            npass += 1
+            ck.ob("DEFUSE", g.path, "bounds-passed-as-given#%d" % k, not mixed and not dup,
+                  "each argument of %s comes from one parameter of its own" % t["f"]["name"] if not mixed and not dup else
+                  "argument %s of %s combines several parameters (%s): the bounds of the statement are reordered or merged before the proof is checked" % (mixed, t["f"]["name"], [sorted(x[1] for x in sets[i]) for i in mixed]) if mixed else
+                  "two arguments of %s come from the same parameter" % t["f"]["name"], g.loc(bi))
+    ck.floor("DEFUSE", "range-proof calls in the statement wrappers", npass, 4)
     narrowing_len_sweep(ck, crate("rs", "concordium_base"), re.compile(r"concordium_base::(id::id_verifier|web3id)"), re.compile(r"(verify|verifier|validate|check)[a-z_0-9]*(::\{closure#\d+\})*$"))
     conditional_transcript_sweep(ck, crate("rs", "concordium_base"), re.compile(r"concordium_base::(id::id_verifier|id::identity_attributes_credentials|web3id)"), floor=5)
     # what a statement says is handed to the proof verifiers WHOLE: no take/skip/truncate/filter on statement data in the
